@@ -285,13 +285,37 @@ func c02Exec(name, prog string, optimise bool, lines []string) c02Run1 {
 	return res
 }
 
+// c02Positions: the places other than `r = E` in which the expression is put.  `E` is replaced by
+// the expression's text; the surrounding block has the captures $1 (integer) and $2 (float).
+var c02Positions = map[string]string{
+	"cond":  "E {\n    r = 1\n  }",
+	"cmpl":  "E < $1 {\n    r = $1\n  }",
+	"cmpr":  "$2 >= E {\n    r = 2\n  }",
+	"plus":  "r += E",
+	"else":  "$1 > 1000000 {\n    r = 0\n  } else {\n    r = E\n  }",
+	"float": "r = float(E)",
+	"int":   "r = int(E)",
+	"and":   "$1 > -100000 && E > 0 {\n    r = 1\n  }",
+	"neg":   "r = 0 - (E)",
+	"twice": "r = (E) + (E)",
+}
+
 func c02Run(r *runCtx, id string, f []string) {
+	pos := ""
+	if f[0] == "foldpos" {
+		pos = f[1]
+		f = append([]string{"fold"}, f[2:]...)
+	}
 	tree := parseRPN(f[1])
 	lines := strings.Split(f[3], "|")
 	for i := range lines {
 		lines[i] = strings.ReplaceAll(lines[i], "_", " ")
 	}
-	prog := "gauge r\n/^(-?\\d+) (-?\\d+\\.\\d+)$/ {\n  r = " + tree.text() + "\n}\n"
+	stmt := "r = " + tree.text()
+	if pos != "" {
+		stmt = strings.ReplaceAll(c02Positions[pos], "E", tree.text())
+	}
+	prog := "gauge r\n/^(-?\\d+) (-?\\d+\\.\\d+)$/ {\n  " + stmt + "\n}\n"
 	// the real optimiser on the parsed program
 	folded := "?"
 	if root, err := parser.Parse("c02.mtail", strings.NewReader(prog)); err == nil {
@@ -309,7 +333,13 @@ func c02Run(r *runCtx, id string, f []string) {
 	if on.ok {
 		onS = strings.Join(on.vals, ",")
 	}
-	r.obs(id, "%s %s", folded, onS)
+	if pos != "" {
+		// the model speaks about the expression, not about the statement around it: only the
+		// property is evaluated here
+		r.obs(id, "POS")
+	} else {
+		r.obs(id, "%s %s", folded, onS)
+	}
 	// the property
 	switch {
 	case !on.ok && off.ok, !on.ok && !off.ok:
@@ -351,6 +381,8 @@ func init() {
 			floats := []float64{0.0, 1.0, -1.0, 2.0, 0.5, -2.5, 7.0, 3.0, 5e-10, -2.5e-10, 1e-300, 5e-324, 1e300, 0.1, 0.2, 0.3}
 			ops := []string{"+", "-", "*", "/", "%", "^"}
 			lines := "3_0.5|0_0.0|-7_2.0|10_-2.5|1_2.25|2_0.3|5_1.0"
+			nEmitted := 0
+			posIndex := map[string]int{"cond": 0, "cmpl": 1, "cmpr": 2, "plus": 3, "else": 4, "float": 5, "int": 6, "and": 7, "neg": 8, "twice": 9}
 			emit := func(n *c02Node) {
 				o := &c02Oracle{entries: map[string]bool{}}
 				n.collectConst(o)
@@ -369,6 +401,17 @@ func init() {
 					tbl = "."
 				}
 				g.emit("fold", n.rpn(), tbl, lines)
+				// ... and the same expression in the other places an expression can stand
+				if n.kind == 'b' {
+					nEmitted++
+					if g.thorough() || nEmitted%4 == 0 {
+						for _, pos := range []string{"cond", "cmpl", "cmpr", "plus", "else", "float", "int", "and", "neg", "twice"} {
+							if g.thorough() || (nEmitted/4)%10 == posIndex[pos] {
+								g.emit("foldpos", pos, n.rpn(), tbl, lines)
+							}
+						}
+					}
+				}
 			}
 			lit := func(isF bool, k int) *c02Node {
 				if isF {
